@@ -10,6 +10,7 @@ theorem visInv_add {s : Store} (h : VisInv s) (d : Doc) : VisInv (execAdd s d).1
                          mts := modifyLast (fun m => { m with info := putInfo m.info (infoOf s1.cfg.tpl d), size := m.size + d.size, count := m.count + 1 }) s1.mts,
                          flushSig := s1.flushSig || decide (s1.cfg.flushThr ≤ totalSize (modifyLast (fun m => { m with info := putInfo m.info (infoOf s1.cfg.tpl d), size := m.size + d.size, count := m.count + 1 }) s1.mts)),
                          gh := { s1.gh with acked := d :: s1.gh.acked, sess := d :: s1.gh.sess,
+                                            gone := s1.gh.gone.filter fun j => j != d.id,
                                             readded := s1.gh.readded || (s1.gh.acked.any fun a => a.id == d.id) } } := by
       intro s1 hc hT hg hne
       constructor
